@@ -133,3 +133,6 @@ pub broadcast axiom fn align_usize()
 pub assume_specification<T, U, F: FnOnce(T) -> U>[ Option::<T>::map_or ](x: Option<T>, default: U, f: F) -> (r: U)
     requires x matches Some(v) ==> f.requires((v,)),
     ensures match x { Some(v) => f.ensures((v,), r), None => r == default };
+
+pub assume_specification<T: core::cmp::Ord>[core::cmp::min](a: T, b: T) -> (r: T)
+    ensures r == (if a.cmp_spec(&b) == core::cmp::Ordering::Greater { b } else { a });
